@@ -103,3 +103,105 @@ impl Database for SledDB {
         Ok(())
     }
 }
+
+/// Verification hook (inert unless armed): lets a harness make the k-th storage write or flush of
+/// the calling thread fail, to enumerate failure positions.
+/// The trait below is implemented for `sled::Db`, so that the adapter's existing calls
+/// `self.0.insert(..)`, `self.0.apply_batch(..)` and `self.0.flush()` resolve to it (trait methods
+/// on `Db` are found before the auto-deref to `sled::Tree`) and forward to the real methods.
+#[cfg(zerokit_verif)]
+pub mod verif_fault {
+    use std::cell::Cell;
+
+    pub const MODE_ERROR_ONCE: u8 = 0;
+    pub const MODE_ABORT: u8 = 1;
+    pub const MODE_ERROR_FROM: u8 = 2;
+
+    thread_local! {
+        static OPS: Cell<u64> = const { Cell::new(0) };
+        static FAIL_AT: Cell<Option<u64>> = const { Cell::new(None) };
+        static MODE: Cell<u8> = const { Cell::new(0) };
+        static FIRED: Cell<u64> = const { Cell::new(0) };
+    }
+
+    /// The `k`-th (0-based) storage operation of this thread from now on fails.
+    pub fn arm(k: u64, mode: u8) {
+        OPS.with(|c| c.set(0));
+        FIRED.with(|c| c.set(0));
+        FAIL_AT.with(|c| c.set(Some(k)));
+        MODE.with(|c| c.set(mode));
+    }
+
+    /// Count operations without failing any.
+    pub fn disarm() {
+        OPS.with(|c| c.set(0));
+        FIRED.with(|c| c.set(0));
+        FAIL_AT.with(|c| c.set(None));
+    }
+
+    /// Storage operations seen on this thread since the last `arm`/`disarm`.
+    pub fn ops() -> u64 {
+        OPS.with(|c| c.get())
+    }
+
+    /// How many operations were made to fail since the last `arm`.
+    pub fn fired() -> u64 {
+        FIRED.with(|c| c.get())
+    }
+
+    fn tick() -> sled::Result<()> {
+        let n = OPS.with(|c| {
+            let n = c.get();
+            c.set(n + 1);
+            n
+        });
+        let fail = match FAIL_AT.with(|c| c.get()) {
+            None => false,
+            Some(k) => match MODE.with(|c| c.get()) {
+                MODE_ERROR_FROM => n >= k,
+                _ => n == k,
+            },
+        };
+        if !fail {
+            return Ok(());
+        }
+        if MODE.with(|c| c.get()) == MODE_ABORT {
+            std::process::abort();
+        }
+        FIRED.with(|c| c.set(c.get() + 1));
+        Err(sled::Error::Unsupported(
+            "zerokit_verif: injected storage failure".to_string(),
+        ))
+    }
+
+    pub trait FaultySled {
+        fn insert<K: AsRef<[u8]>, V: Into<sled::IVec>>(
+            &self,
+            key: K,
+            value: V,
+        ) -> sled::Result<Option<sled::IVec>>;
+        fn apply_batch(&self, batch: sled::Batch) -> sled::Result<()>;
+        fn flush(&self) -> sled::Result<usize>;
+    }
+
+    impl FaultySled for sled::Db {
+        fn insert<K: AsRef<[u8]>, V: Into<sled::IVec>>(
+            &self,
+            key: K,
+            value: V,
+        ) -> sled::Result<Option<sled::IVec>> {
+            tick()?;
+            sled::Tree::insert(self, key, value)
+        }
+        fn apply_batch(&self, batch: sled::Batch) -> sled::Result<()> {
+            tick()?;
+            sled::Tree::apply_batch(self, batch)
+        }
+        fn flush(&self) -> sled::Result<usize> {
+            tick()?;
+            sled::Tree::flush(self)
+        }
+    }
+}
+#[cfg(zerokit_verif)]
+use verif_fault::FaultySled as _;
